@@ -233,8 +233,10 @@ impl<'a> Checker<'a> {
     }
     fn props_redirect_tramp(&self) -> Vec<&'static str> {
         match self.arch {
-            Arch::X86_64 => vec!["C01"],
-            Arch::A64 => vec!["C01", "C15"],
+            // C13: transparency "for both the short and the long trampoline form" presupposes that
+            // the form chosen reaches the fake at all
+            Arch::X86_64 => vec!["C01", "C13"],
+            Arch::A64 => vec!["C01", "C15", "C13"],
             Arch::Arm => vec!["C01", "C16"],
         }
     }
@@ -524,11 +526,21 @@ impl<'a> Hooks for Checker<'a> {
         let ord = self.op_ordinal;
         self.op_ordinal += 1;
         let sc = self.sc;
+        // page-granular: a denied page must not hold any live fake (its restore would fail too)
+        let target_unfaked = self.model.iter().all(|m| m.is_empty());
         with_world(|w| {
             let base = w.counters.mmap_calls;
             w.policy.fail_mmap = sc.policy.fail_mmap.iter().map(|i| base + i).collect();
             w.policy.fail_mmap_all = sc.policy.fail_mmap_all;
             w.policy.fail_mprotect = if sc.policy.fail_mprotect.contains(&ord) { vec![w.counters.mprotect_calls] } else { vec![] };
+            // ordinal + 1000 in the list = the target's pages can never be made writable, for the
+            // rest of the lifetime (only when the target carries no live fake: nothing claims that a
+            // failing restore is survivable)
+            if sc.policy.fail_mprotect.contains(&(ord + 1000)) && target_unfaked {
+                let ps = w.page_size;
+                let lo = s & !(ps - 1);
+                w.policy.mprotect_deny.push((lo, (s + SLOT + ps - 1) & !(ps - 1)));
+            }
         });
     }
 
@@ -676,6 +688,7 @@ fn build_world(sc: &SimScenario) -> (World, Vec<(u64, Vec<u8>)>) {
         fail_mmap: Vec::new(),
         fail_mmap_all: false,
         fail_mprotect: Vec::new(),
+        mprotect_deny: Vec::new(),
         mmap_min_addr: p.mmap_min_addr,
         user_limit: p.user_limit,
         win_granule: 0x10000,
@@ -786,6 +799,7 @@ pub fn execute(sc: &SimScenario) -> Outcome {
         }
         ck.ev_mark = with_world(|w| w.events.len());
         ck.counted_installed = false;
+        with_world(|w| w.policy.mprotect_deny.clear());
         let r = dispatch(&sc.variant, lt, &sc.targets, &mut ck);
         ck.last_exit_ok = matches!(r, OpResult::Ok);
         if ck.out.probes.contains_key("aborted_after_segv") {
